@@ -144,8 +144,12 @@ def SYNC(spelling, slot):
     return ("sync", spelling, slot)
 
 
-def RAISE(tag):
-    return ("raise", tag)
+def WITHPRE(idx, outer_value, node):
+    return ("withpre", idx, outer_value, node)
+
+
+def RAISE(tag, base=False):
+    return ("raise", tag, base)
 
 
 def READ(sv):
@@ -430,6 +434,8 @@ class HBatch(_batching.BatchBase):
                     it.set_value(item_value(it.kind, it.arg) + 1000 * (self.flush_calls - 1))
                 elif plan == "err":
                     it.set_error(E(("item", it.sid)))
+                elif plan == "err_base":
+                    it.set_error(BE(("item", it.sid)))
                 elif plan == "unset":
                     pass
                 elif plan == "flushraise":
@@ -671,7 +677,7 @@ def run_node(rt, ts, node):
         rt.ev("yield", ts.sid, n)
         try:
             got = yield struct
-        except Exception as e:
+        except (Exception, BE) as e:
             rt.running.append(ts.sid)
             rt.ev("throw", ts.sid, n)
             _post_yield(rt, ts, n, tmpl, slots, futs, fresh, e)
@@ -746,6 +752,8 @@ def run_node(rt, ts, node):
         ts.trace.append(("sync", v))
         return None
     if k == "raise":
+        if len(node) > 2 and node[2]:
+            raise BE(("raise", node[1]))        # a failure that is not an Exception (like KeyboardInterrupt)
         raise E(("raise", node[1]))
     if k == "read":
         which = node[1]
@@ -765,6 +773,15 @@ def run_node(rt, ts, node):
     if k == "call":     # ('call', fn) arbitrary harness callback fn(rt, ts)
         node[1](rt, ts)
         return None
+    if k == "withpre":
+        # ('withpre', idx, outer_value, node): `o = sv.override(sv.get())` - an override object that re-asserts the
+        # current value, created BEFORE the enclosing override is entered - then `with sv.override(outer): with o:`
+        idx = node[1]
+        o = rt.sv[idx].override(rt.sv[idx].get())
+        with rt.sv[idx].override(node[2]):
+            with o:
+                r = yield from run_node(rt, ts, node[3])
+        return r
     if k == "overlap":  # ('overlap', specA, specB, inside, between): `with ExitStack() as st: with a: st.enter_context(b);
         #                     inside` -> a is left first, then `between` runs with only b open, then b is left
         import contextlib
@@ -1121,7 +1138,7 @@ def run_root(rt, td, conv=0):
         else:
             raise AssertionError(conv)
         return ("v", v)
-    except Exception as e:
+    except (Exception, BE) as e:
         reraise_control(e)
         return ("e", e)
 
@@ -1194,6 +1211,8 @@ class Ref(object):
             return ("v", item_value(kind, arg))
         if plan == "err":
             return ("e", ("E", ("item", sid)))
+        if plan == "err_base":
+            return ("e", ("BE", ("item", sid)))
         # unset / flushraise: consult the real flush log for the batch this item travelled in
         idx = self.rt.item_flush.get(sid)
         raised = self.rt.flush_log[idx]["raised"] if idx is not None else None
@@ -1349,6 +1368,8 @@ class Ref(object):
             try:
                 return self.node(st, node[1])
             except RefErr as e:
+                if e.desc[0] == "BE":
+                    raise           # `except Exception` does not catch a BaseException-derived failure
                 st["trace"].append(("caught", e.desc))
                 if mode == "ret":
                     return _Ret(("caughtret", e.desc))
@@ -1374,7 +1395,7 @@ class Ref(object):
             st["trace"].append(("sync", o[1]))
             return None
         if k == "raise":
-            raise RefErr(("E", ("raise", node[1])))
+            raise RefErr(("BE" if len(node) > 2 and node[2] else "E", ("raise", node[1])))
         if k == "read":
             st["trace"].append(("read", self.lookup(node[1])))
             return None
@@ -1384,6 +1405,15 @@ class Ref(object):
             return None
         if k in ("call", "cancel", "stash"):
             return None
+        if k == "withpre":
+            cur = self.lookup(node[1])
+            self.scope.append((node[1], node[2]))
+            self.scope.append((node[1], cur))
+            try:
+                return self.node(st, node[3])
+            finally:
+                self.scope.pop()
+                self.scope.pop()
         if k == "overlap":
             specA, specB = node[1], node[2]
 
@@ -1444,6 +1474,36 @@ def outcome_desc(o):
     return ("e", desc_of(o[1]))
 
 
+class _NullCtx(AsyncContext):
+    def resume(self):
+        pass
+
+    def pause(self):
+        pass
+
+
+_PRELUDE_SV = AsyncScopedValue(0)
+
+
+@asynq.asynq()
+def _prelude_task():
+    with _NullCtx():
+        with _PRELUDE_SV.override(1):
+            yield asynq.ConstFuture(0)
+    return 0
+
+
+def prelude():
+    """An earlier, unrelated computation on this thread (contexts, an override), followed by a scheduler reset: every
+    checked program runs as 'a later computation after a reset', never as the first thing the process does - so state
+    that asynq keeps from an earlier computation shows in every path and in the concrete replay alike."""
+    try:
+        _prelude_task()
+    except Exception as e:
+        reraise_control(e)
+    reset_globals()
+
+
 def check_program(td, props, nkinds=2, prio=None, prio_mode="tuple", hash_order=0, conv=0,
                   sv_init=(0, 0), tree_single_kind=False, expect_flushes=None, budget=4000,
                   flush_hook=None, sig=None, precreate=None, public_flush_raises=None, options=None):
@@ -1451,6 +1511,7 @@ def check_program(td, props, nkinds=2, prio=None, prio_mode="tuple", hash_order=
     the requested properties held.  `props` is a set of monitor names."""
     rec.clear_fail()
     reset_globals()
+    prelude()
     rt = RT(nkinds=nkinds, prio=prio, prio_mode=prio_mode, hash_order=hash_order, budget=budget,
             sv_init=sv_init, monitors=props)
     rt.flush_hook = flush_hook
@@ -1496,7 +1557,7 @@ def _after_stash(rt, props):
         for key, t in rt.stash.items():
             try:
                 t.value()
-            except Exception as e:
+            except (Exception, BE) as e:
                 reraise_control(e)
             if "c08" in props:
                 if _sched.get_active_task() is not None:
@@ -1691,7 +1752,7 @@ def check_history(comps, sig=None):
                 for p, text in rt.problems:
                     if p == "c08":
                         return rec.fail("computation %d: %s" % (i, text))
-                if real[0] == "e" and not isinstance(real[1], Exception):
+                if real[0] == "e" and not isinstance(real[1], (Exception, BE)):
                     return rec.fail("computation %d ended with a non-Exception %r" % (i, real[1]))
             else:
                 if not judge(rt, c["td"], real, props | {"c01"}, c.get("conv", 0), c.get("sv_init", (0, 0)),
